@@ -86,7 +86,7 @@ func c09wsWrites(sizes []int) []simpeer.Act {
 
 func c09wsGen(g *simcore.Tape, thorough bool) *c09wsScenario {
 	sc := &c09wsScenario{}
-	max := 20000
+	max := 72 << 10 // above the copy buffer (32 KiB) and the simnet window (64 KiB)
 	if thorough {
 		max = 200 << 10
 	}
